@@ -407,8 +407,8 @@ def run(ctx):
                 same = None
                 try:
                     same = check_labels(ctx, case)
-                except Violation as v:
-                    ctx.fail_now(v, case)
+                except Exception as v:
+                    ctx.fail_exc(v, case)
                 lab = f"labels:{kind}" + (":repeated" if repeated else "")
                 ctx.count(1, labels=(lab,) + ((lab + ":same-arrangement",)
                                               if same else ()),
